@@ -1,15 +1,88 @@
+import os, re
+
+HUB_HALVES = ["props/C11_hub.v", "props/C01_hub.v", "props/C09_hub.v"]
+COQ_Q = ["-Q", "theories", "Ship", "-Q", "gen", "ShipGen", "-Q", "props", "ShipProps",
+         "-w", "-notation-overridden,-deprecated-hint-without-locality,-deprecated-instance-without-locality"]
+
+
+def hub_halves(ctx):
+    """The hub-level halves of C11, C01 and C09 are proved about the same model and tied by the
+    same driver; their theorem files are compiled here and their assumptions collected."""
+    problems, cov, notes = [], {}, []
+    for vfile in HUB_HALVES:
+        path = os.path.join(ctx["coq"], vfile)
+        if not os.path.exists(path):
+            problems.append(("proof", "%s is missing" % vfile))
+            continue
+        src = open(path).read()
+        theorems = re.findall(r"^(?:Theorem|Corollary)\s+(\w+)", src, re.M)
+        rc, out, dt = ctx["sh"](["coqc"] + COQ_Q + [vfile, "-o", os.path.join(ctx["wd"], os.path.basename(vfile)[:-2] + ".vo")],
+                                cwd=ctx["coq"], timeout=600)
+        closed = len(re.findall(r"^Closed under the global context", out, re.M))
+        axioms = re.findall(r"^Axioms:", out, re.M)
+        cov[os.path.basename(vfile)[:-2]] = dict(theorems=theorems, closed_under_global_context=closed, rc=rc)
+        if rc != 0 or closed != len(theorems) or axioms:
+            problems.append(("proof", "%s: rc=%d, %d of %d theorems closed under the global context: %s"
+                             % (vfile, rc, closed, len(theorems), out[-1500:])))
+    notes.append("hub-level halves: " + ", ".join("%s %d theorems" % (k, len(v["theorems"])) for k, v in cov.items()))
+    return dict(problems=problems, coverage=dict(hub_level_halves=cov), notes=notes)
+
+
 SPEC = dict(
     manifest=dict(
-        text="placeholder",
-        note="placeholder", technique="Coq proof + differential correspondence", ref="DESIGN.md §6 C10"),
+        text="Machine-checked theorems (Coq 8.16.1) about an executable model of the hub's pairing and dial bookkeeping over "
+             "arbitrarily many SKIs (per SKI: trusted flag, pairing state, registered connection, attempt counter, pending "
+             "delayed dial with its counter snapshot, dials in flight; hub flags started / shut down), one label per hub entry "
+             "point (register, unregister, cancel, disconnect, auto-accept, shutdown, mDNS report of any SKI set, inbound request, "
+             "handshake-state report, close report) and per internal step of a delayed dial (fires: counter / trust-or-queued / "
+             "connected checks; the dial in flight succeeds or fails). For every configuration, every hub state and unbounded "
+             "label lists: a dial starts only when its SKI is trusted or queued, and that only arises from RegisterRemoteSKI, a "
+             "hello-ok report or a report of the initial state (never from mDNS); after UnregisterRemoteSKI the SKI is untrusted, "
+             "its connection is told to close, every pending dial is dropped and no dial starts until trust is re-granted; "
+             "CancelPairingWithSKI aborts the pending request and clears trust; after Shutdown no dial starts and nothing is "
+             "re-announced (true of the repaired tree: the table of which functions consult the shut-down flag is regenerated "
+             "from the Go AST; the unrepaired hub is refuted by a witness). One region is refuted and recorded as a finding: a "
+             "dial in flight at unregister time completes as a client connection and its hello-ok report re-trusts the SKI. "
+             "Hub-level halves of C11 (a close report removes exactly the reporting connection's registry entry and is always "
+             "notified once), C01 (trusted only by registration or exactly hello-ok) and C09 (created connections get the stored "
+             "SHIP ID) are proved about the same model. Tie, every run: operation sequences (up to 25 operations, 3 SKIs in every "
+             "spelling, mDNS reports, pending dials fired and dials failed at chosen moments) on a real hub.Hub whose dial targets "
+             "are driver-owned loopback listeners, ending optionally in a real inbound ServeHTTP or a real TLS websocket dial "
+             "success; after every operation the calls on connections, callbacks, mDNS calls, dials and the per-SKI state are "
+             "compared with the model inside Coq, where the property monitors run on the implementation's own observations.",
+        note="Trusted: Coq kernel + vm_compute; the Go-AST translator (harness/cmd/extract/hub10.go: back-off table, shut-down flag "
+             "and its four readers); the hubunit driver (fake connections/mDNS/reader, loopback listeners, hook "
+             "VerifPrepareConnectionInitation standing for the expiry of a dial delay); atomicity of one hub entry point per label "
+             "(mutex-level interleavings inside an entry point are C20's subject). SKIs are indices (spelling is C15). The "
+             "connection-level facts that a closed/aborted connection never reports hello-ok and that a server connection reaches "
+             "hello-ok only with trust are C01/C04. No axioms (Print Assumptions: closed under the global context).",
+        technique="Coq proof (invariants by induction over unbounded label lists, case analysis per entry point) + tables regenerated "
+                  "from source + differential correspondence with in-Coq monitors",
+        ref="DESIGN.md §6 C10, Appendix D"),
     imports="From Ship Require Import Base HubModel.\nOpen Scope N_scope.",
     case_type="c10_case", check_fn="check_c10",
-    drivers=[dict(bin="hubunit", args=["-prop", "C10"], n_quick=1200, n_thorough=30000, timeout=600)],
+    drivers=[dict(bin="hubunit", args=["-prop", "C10"], n_quick=1500, n_thorough=40000, timeout=900)],
     codes={10: "dial_to_untrusted_unqueued_ski", 11: "dial_after_shutdown", 12: "dial_after_unregister",
            13: "unregister_left_trust_counter_or_connection", 14: "cancel_did_not_abort_or_clear_trust",
            15: "close_report_removed_wrong_registry_entry", 16: "disconnect_notification_missing_or_repeated",
            17: "trusted_without_registration_or_hello_ok", 18: "connection_created_with_wrong_ship_id",
            19: "client_connection_completed_after_unregister"},
-    rule="placeholder",
-    trusted=[], assumptions=[],
+    rule="sequences of 6-25 operations on a real hub.Hub over 3 SKIs (random spelling per call) drawn from: register, "
+         "unregister, cancel, disconnect, set auto-accept, shutdown, store a SHIP ID, mDNS report of a random SKI subset, "
+         "register a fake connection, handshake-state report (any state, with/without error), close report by any fake "
+         "connection ever created (registered, replaced or never registered; completed or not), fire the pending dial, fail a "
+         "dial in flight; 35% end with a real inbound ServeHTTP or a real TLS websocket dial success; 60% run with four trusted, "
+         "never visible ballast SKIs, 15% on a hub that was not started; local SKI below / above / between the peers. "
+         "distinct = hash of the whole case; non-trivial = at least one dial was observed and at least one of unregister / "
+         "cancel / shutdown occurred in the sequence.",
+    trusted=["hub fakes (fake connections, fake mDNS, recording HubReader) stand in for connections, mDNS and application",
+             "hub.VerifPrepareConnectionInitation (run on a driver goroutine) stands for the expiry of a dial delay; the hub's own "
+             "delay table is set to one hour so that its timers never fire during a run",
+             "one label = one hub entry point executed without interleaving (lock-level interleavings: C20)",
+             "entries are reported with one IPv4 address and no host name (one dial per attempt; a failing attempt makes "
+             "the two TCP connections of connectFoundService's retry without path)"],
+    assumptions=["gen/HubTable.v (regenerated from hub/*.go): Shutdown sets a flag that coordinateConnectionInitations, "
+                 "prepareConnectionInitation, initateConnection and checkAutoReannounce consult; attempt counter capped at 2",
+                 "connections never report CmiStateInitStart (reports are state changes; the only state mapped to Queued)"],
+    extra_steps=[hub_halves],
 )
